@@ -5,9 +5,10 @@ CONSTANTS
   QuietClears = TRUE
   Flags <- FlagsQ
   Verbs <- VerbsQ
+  Indents <- IndentsQ
   QuietOps = TRUE
   W = 4
-  Lens <- LensOne
+  Lens <- LensGate
   Pairs <- PairsNone
   MaxN = 1
   MaxSections = 2
